@@ -15,6 +15,7 @@
     c05.addcol N pos n (name 0 | name 1 e)*   ALTER TABLE N ADD (…) pos;  pos = first|last|before:c|after:c
     c05.dropcol N n col…   c05.rename N old new   c05.create N n col…
     c05.createas N n col… src k e_1…e_k cond   CREATE TABLE N (cols) AS SELECT e… FROM src WHERE cond
+    c05.setattr N                        a successful ALTER TABLE N SET …: only the uncommitted mark → result
     c05.commit                                                           → ok m=
     c05.rollback                         marked tables back to their committed state → ok m=
     c05.committed N                           the committed table as text → dump of texts
@@ -342,6 +343,13 @@ def step (s : State) (cmd : String) (args : List String) : State × String :=
     match lookupT s.committed n with
     | none => (s, n ++ "?")
     | some t => (s, dumpText n t)
+  | "setattr", [n] =>
+    -- a successful ALTER TABLE n SET attribute: header and records are untouched, the table is marked uncommitted
+    match lookupT s.tables n with
+    | none => bad
+    | some _ =>
+      let s' := { s with marks := addMark s.marks n }
+      (s', showResult s' (.ok []) [n])
   | "rollback", [] =>
     let s' := rollback s
     (s', "ok " ++ showMarks s'.marks)
